@@ -8,6 +8,10 @@ package syncer
 // Spec functions (wfHeader, hdrTS, hdrTxn, hdrFlags, hdrNE, appVal, ...) are
 // defined in /verif/spec/header.contracts.
 
+// The force-snapshot timer is only written by the sync loop (start) and by
+// SendOnce (after a successful upload).
+//@ stable Syncer.lastSnapshotTime
+
 //@ func (it *NativeIterator) addHeader
 //@   requires flags_masked: flags &^ header.FlagSyncMask == 0
 //@   requires buf_disjoint: disjoint(it.buf, entryVal)
@@ -202,9 +206,10 @@ package syncer
 
 //@ func (s *Syncer) SendOnce
 //@   requires inv: ghostInv()
+//@   ensures force_timer_never_reset: old(s.lastSnapshotTime.wall) != 0 || old(s.lastSnapshotTime.ext) != 0 ==> s.lastSnapshotTime.wall != 0 || s.lastSnapshotTime.ext != 0
 //@   requires not_in_txn: ghost_inTxn == 0
 //@   requires retry_budget: s.c.StorageRetryCount >= 1 || s.c.StorageRetryForever
-//@   modifies *
+//@   modifies *, s.lastSnapshotTime
 //@   at_call cleaner.(*Worker).SetCommitted#0 assert only_after_store: ghost_nstore == old(ghost_nstore) + 1
 //@   at_call snapshot.(NameInfo).BuildName#0 assert name_carries_txn_time: s.hooks.UpdateSnapshotInfo == nil ==> arg0.Timestamp.wall == ghost_loc_nowWall && arg0.Timestamp.ext == ghost_loc_nowExt
 //@   loop 0 invariant not_stored: ghost_nstore == old(ghost_nstore)
@@ -256,6 +261,8 @@ package syncer
 //@   loop 1 invariant not_failed: ghost_loc_failed == 0
 //@   loop 2 invariant not_failed: ghost_loc_failed == 0
 //@   loop 3 invariant not_failed: ghost_loc_failed == 0
+//@   loop 2 invariant force_timer_runs_from_the_start: s.lastSnapshotTime.wall != 0 || s.lastSnapshotTime.ext != 0
+//@   loop 3 invariant force_timer_runs_from_the_start: s.lastSnapshotTime.wall != 0 || s.lastSnapshotTime.ext != 0
 //@   loop 2 invariant inv: ghostInv()
 //@   loop 2 invariant not_in_txn: ghost_inTxn == 0
 //@   loop 2 invariant I0: uint64(lastSyncedTxnID) <= ghost_last
